@@ -224,6 +224,14 @@ NEEDS = {
     "C12-r6-2": "weak memory model only (loom): the slot release store in MessageBorrow::drop Relaxed instead of Release, with slot reuse",
     "C20-r6-1": "two keyed removals in a particular arrangement, e.g. insert 5, insert 9, insert 3, extract(9), extract(3) (sift_up compares key components instead of the UniqueKey)",
     "C20-r6-2": "exactly a multiple of 2^32 insertions between issuing a key and the reuse of its slot (epochs compared after `as u32`)",
+    "C07-r8-1": "a model mixing a non-keyed periodic self-event with another self-scheduled event for the same time (periodic one queued under the global origin)",
+    "C07-r8-2": "a keyed one-shot and a non-keyed event from the global Scheduler for the same model and time (keyed one queued under the target's channel id)",
+    "C10-r8-1": "keyed periodic occurrence sharing time and origin with an earlier action that cancels it (into_future passes a fresh key)",
+    "C10-r8-2": "keyed periodic action left running for >= 3 occurrences (re-armed clone is a one-shot)",
+    "C16-r8-1": "a clone of a shared Output sends (sub-model init), another clone connects a new port, the first clone sends again (write() derives the epoch from its own cache)",
+    "C16-r8-2": "SimInit::with_num_threads(0) (lower clamp bound 0: empty worker pool)",
+    "C18-r8-1": "AutoSystemClock with a start time other than MonotonicTime::EPOCH (anchored on EPOCH instead of the first deadline)",
+    "C18-r8-2": "step_until whose deadline coincides with an event time, with a clock that observes calls (second synchronize(target) after the model code ran)",
     "C01-r7-1": "step_until with an absolute deadline in the past but within the same whole second as the current time (guard compares as_secs())",
     "C01-r7-2": "keyed periodic action, period not a whole number of milliseconds, >= 3 occurrences (the re-armed clone carries a truncated period)",
     "C03-r7-1": "Output with >= 2 receivers, an earlier broadcast on the port, the last-connected receiver's mailbox full at the first poll (last reused slot keeps a stale Some)",
